@@ -23,4 +23,11 @@ HARNESSES.append(
                               "ext2fs_read_dir_block4.0:66"],
          backends=["default", "kissat"],
          bound="one directory block of 48 (thorough: 64) bytes, every byte symbolic; hash version and flags symbolic"))
-MANIFEST = {"text": "", "note": ""}
+MANIFEST = {
+    "text": "Kernel-level slice (partial). Bounded-exhaustive on one fully symbolic directory block: fill_dir_block indexes exactly the live entries "
+            "(minus . and .. in non-compress mode) with the right inode, size sum and parent; fill_dir_block -> copy_dir_entries preserves the multiset "
+            "of (inode, type, name) for every slack percentage and entry order, and every output block is a tiling chain of valid entries. "
+            "File preservation across a whole e2fsck run is outside.",
+    "note": "Trusted: CBMC's C semantics; hash replaced by a deterministic stub (order only); alloc_size_dir cut to a static area; sorting between the "
+            "two steps represented by one symbolic transposition (config SWAP).",
+}
